@@ -30,6 +30,9 @@ type ObjDesc struct {
 	MaxEdges int             // index fan-out knob, drawn per run
 	Center   s2.Point        // where the object lives (for drawing nearby probes)
 	Radius   s1.Angle
+	// Alias (OIndex, C14 only): Alias[i] >= 0 means shape i of this index IS the Loop/Polygon of
+	// world object Alias[i] (the same Go object is queried directly and through this index)
+	Alias []int
 }
 
 // Obj is a built object.
@@ -40,6 +43,7 @@ type Obj struct {
 	Index  *s2.ShapeIndex
 	Shapes []s2.Shape // OIndex: shapes added so far, in id order
 	Desc   *ObjDesc
+	World  []*Obj // the world this object belongs to (for aliased shapes)
 }
 
 // indexOfLoop / indexOfPolygon reach the embedded index without depending on private names at
@@ -83,8 +87,10 @@ func (o *Obj) index() *s2.ShapeIndex {
 
 // buildObj makes a fresh object from its recipe. nShapes limits how many shapes of an index are
 // added (the rest can be added later by the history).
-func buildObj(d *ObjDesc, nShapes int) *Obj {
-	o := &Obj{Kind: d.Kind, Desc: d}
+func buildObj(d *ObjDesc, nShapes int) *Obj { return buildObjIn(d, nShapes, nil) }
+
+func buildObjIn(d *ObjDesc, nShapes int, world []*Obj) *Obj {
+	o := &Obj{Kind: d.Kind, Desc: d, World: world}
 	switch d.Kind {
 	case OLoop:
 		o.Loop = d.Shapes[0].BuildLoop()
@@ -103,9 +109,32 @@ func buildObj(d *ObjDesc, nShapes int) *Obj {
 }
 
 func (o *Obj) addShape(i int) {
-	sh := o.Desc.Shapes[i].BuildShape()
+	var sh s2.Shape
+	if a := o.aliasOf(i); a != nil {
+		sh = a
+	} else {
+		sh = o.Desc.Shapes[i].BuildShape()
+	}
 	o.Shapes = append(o.Shapes, sh)
 	o.Index.Add(sh)
+}
+
+// aliasOf returns the shared Loop/Polygon that shape i of this index stands for, if any.
+func (o *Obj) aliasOf(i int) s2.Shape {
+	if o.World == nil || i >= len(o.Desc.Alias) || o.Desc.Alias[i] < 0 {
+		return nil
+	}
+	t := o.World[o.Desc.Alias[i]]
+	if t == nil {
+		return nil
+	}
+	switch t.Kind {
+	case OLoop:
+		return t.Loop
+	case OPolygon:
+		return t.Poly
+	}
+	return nil
 }
 
 // cellList walks the index with a fresh iterator (this builds it).
